@@ -163,7 +163,7 @@ def one_run(job):
                 viol.append(('C10-preexisting-symlink-followed', "'lha %s' wrote to %s while it still is a symlink to %s" % (cmd, name, target)))
             # the archive has a member stored at exactly this path and the overwrite policy allows it: the link must have been replaced
             member_here = {'a': 'file-a', 'd/f': 'file-in-dir', 'x': 'file-dotdot'}.get(name)
-            if member_here and ('seq:' in tag or tag == 'preexisting-symlink') and member_here in job[8] and 'i' not in cmd[1:] and rc == 0:
+            if member_here and ('seq:' in tag or tag == 'preexisting-symlink') and member_here in job[8] and 'i' not in cmd[1:]:
                 if os.path.islink(p) or not os.path.isfile(p):
                     viol.append(('C10-preexisting-symlink-not-replaced', "'lha %s': %s is archived at a path where a symlink to %s existed; after "
                                  "extraction it is %s" % (cmd, member_here, target, 'still a symlink' if os.path.islink(p) else 'missing')))
